@@ -399,10 +399,16 @@ def leaf_entries(leaf, kind):
     return sum(int(v.size) for v in a.values())
 
 
-def coq_terms(case, ix, res, raised):
+def coq_terms(case, ix, res, raised, exp):
     """[(leaf name, term)] or [] when the case is judged by the numpy reference only"""
     if case["values"] != "coded":
         return []
+    if exp is not None:
+        # vm_compute is strict: the model's selection is built even when the implementation raised
+        k = len(exp["pos"])
+        size = case["nb"] * k * k if case["axis"] == "patches" else k * (case["P"] ** 2 if case["t"] != "sd" else case["P"])
+        if size > COQ_ENTRIES:
+            return []
     strict = fq.b(strict_form(ix))
     ax = "WPatches" if case["axis"] == "patches" else "WBins"
     sel = enc_wsel(ix)
@@ -494,7 +500,7 @@ def evaluate(case):
         V.append(("selection-mutates-container", "selecting changed the container it was applied to (%s)" % why))
     if snapshot(obj) != before:
         V.append(("selection-mutates-index", "selecting changed the caller's index object: %s -> %s" % (str(before)[:120], str(snapshot(obj))[:120])))
-    out["terms"] = coq_terms(case, ix, res, raised is not None)
+    out["terms"] = coq_terms(case, ix, res, raised is not None, exp)
     out["restype"] = type(res).__name__
     return out
 
@@ -543,7 +549,8 @@ def laws(case, x, raw, exp, obj, res):
     if axis == "bins" and t in ("pc", "sw") and case.get("loo", 0):
         s, full = base.do_sample(res), base.do_sample(x)
         p = np.array(pos, dtype=np.int64)
-        if not (close(s.data, np.asarray(full.data)[p], True) and close(s.samples, np.asarray(full.samples)[:, p], True)):
+        exact = t == "pc"       # sums of pair counts stay below 2^53; sums of products of two coded weights do not
+        if not (close(s.data, np.asarray(full.data)[p], exact) and close(s.samples, np.asarray(full.samples)[:, p], exact)):
             V.append(("selection-sample-differs", "the sample of the bin selection is not the bin selection of the sample"))
     return V
 
